@@ -417,6 +417,17 @@ func gen(r *vlib.R, n int, tier string, emit func(string)) {
 		emit(fmt.Sprintf("usrv cookie %s %s", vlib.Pick(r, []string{"udp", "tcp"}), pat))
 		n--
 	}
+	for i := 0; i < 6; i++ {
+		var ks []string
+		for j, k := 0, 2+r.Intn(5); j < k; j++ {
+			ks = append(ks, vlib.Pick(r, []string{"ok", "cn", "cnseed", "cnseed", "big", "v6nx", "v6sf", "v6nd", "v6ok"}))
+		}
+		if i < 2 {
+			ks = []string{"cnseed", "cn", "v6nx", "ok", "v6sf", "v6nd", "v6ok"}
+		}
+		emit(fmt.Sprintf("usrv spell %s %d %s", []string{"udp", "tcp"}[i%2], r.U64()%1000000, strings.Join(ks, ",")))
+		n--
+	}
 	for i := 0; i < 8; i++ {
 		var ops []string
 		for j, k := 0, 3+r.Intn(14); j < k; j++ {
